@@ -132,12 +132,20 @@ class C04:
     def validator(self, modname, cname, vname, mode) -> Optional[Tuple[ClassInfo, Summary, tuple]]:
         ctx, m = self.ctx, self.ctx.models
         ci = ctx.index.need_class(modname, cname)
-        if vname not in ci.methods:
+        allv = [v for v in m.validators(ci, inherited=False) if v.kind == "model"]
+        vs = [v for v in allv if v.name == vname]
+        if not vs:
+            # the validator may have been renamed: the model validator of this class that no other rule of this property claims
+            others = {"_check_clips_match", "_check_matches", "_validate_match", "_annotations_are_part_of_the_project", "_validate_times"} - {vname}
+            cand = [v for v in allv if v.name not in others]
+            if len(cand) == 1:
+                vs = cand
+                vname = cand[0].name
+        if not vs and vname not in ci.methods:
             from sa.index import AnchorMissing
             raise AnchorMissing(f"{cname}.{vname} not found", rule="R04.2", site=f"{ci.module.relpath} {cname}")
-        vs = [v for v in m.validators(ci, inherited=False) if v.name == vname]
         file = ci.module.relpath
-        fn = ci.methods[vname][-1]
+        fn = vs[0].node if vs else ci.methods[vname][-1]
         if not vs or vs[0].kind != "model":
             ctx.bad("R04.2", file, f"{cname}.{vname}", "@model_validator missing",
                     f"{cname}.{vname} is not registered as a model validator: the invariant is never checked", fn.lineno)
@@ -222,7 +230,8 @@ class C04:
             self.check_matches(ci, s, p)
         # (c) Match._validate_match
         mci = ctx.index.need_class(f"{DATA}.matches", "Match")
-        mmode = next((v.mode for v in ctx.models.validators(mci, inherited=False) if v.name == "_validate_match" and v.kind == "model"), "after")
+        mmv = [v for v in ctx.models.validators(mci, inherited=False) if v.kind == "model"]
+        mmode = next((v.mode for v in mmv if v.name == "_validate_match"), mmv[0].mode if len(mmv) == 1 else "after")
         got = self.validator(f"{DATA}.matches", "Match", "_validate_match", mmode if mmode in ("before", "after") else "after")
         if got:
             ci, s, p = got
@@ -277,7 +286,8 @@ class C04:
                             r.lineno)
         # (e) Clip._validate_times
         cci = ctx.index.need_class(f"{DATA}.clips", "Clip")
-        cmode = next((v.mode for v in ctx.models.validators(cci, inherited=False) if v.name == "_validate_times" and v.kind == "model"), "before")
+        cmv = [v for v in ctx.models.validators(cci, inherited=False) if v.kind == "model"]
+        cmode = next((v.mode for v in cmv if v.name == "_validate_times"), cmv[0].mode if len(cmv) == 1 else "after")
         got = self.validator(f"{DATA}.clips", "Clip", "_validate_times", cmode if cmode in ("before", "after") else "after")
         if got:
             ci, s, p = got
